@@ -1,4 +1,6 @@
 import Emerge.Cli
+import Emerge.CliArgs
+import Emerge.Gen.CliFlags
 import Emerge.Proto
 import Emerge.Utf8
 /-
@@ -26,9 +28,17 @@ def nodeOfState (s : String) : Option Node :=
 
 def cmdCli (fields : List String) : String :=
   let b := fun k => kv fields k == "1"
-  let out := hexStr (kv fields "out")
-  let fl : Flags := { parseError := b "perr", usage := b "usage", help := b "help", version := b "version",
-                      out := out, name := hexStr (kv fields "name"), args := if kv fields "args" == "" then (if b "file" then ["f"] else []) else ((kv fields "args").splitOn ",").map hexStr }
+  -- `argv=<hex>,<hex>,… cwd=<hex>`: the command line as typed, through the model of the flag set over the regenerated
+  -- flag table; otherwise the digested fields (`perr`, `usage`, …) of earlier replay files
+  let fl : Flags :=
+    if kv fields "argv" != "" then
+      let argv := if kv fields "argv" == "-" then [] else ((kv fields "argv").splitOn ",").map hexStr
+      CliArgs.toFlags Gen.CliFlags.flags (hexStr (kv fields "cwd")) argv
+    else
+      { parseError := b "perr", usage := b "usage", help := b "help", version := b "version",
+        out := hexStr (kv fields "out"), name := hexStr (kv fields "name"),
+        args := if kv fields "args" == "" then (if b "file" then ["f"] else []) else ((kv fields "args").splitOn ",").map hexStr }
+  let out := fl.out
   let sr : SpecResult := ⟨b "parse", hexStr (kv fields "gname"), b "lexer", b "parser"⟩
   let name := chosenName fl sr
   let fs0 : FS := (match nodeOfState (kv fields "outstate") with | some n => [(out, n)] | none => []) ++
